@@ -165,6 +165,11 @@ type Client struct {
 	// subs is the set of active subscriptions by id.
 	subs map[uint32]*Subscription
 
+	// lostSubs contains the subscriptions which have been removed from
+	// subs to be recreated but could not be recreated yet. The next
+	// reconnect tries again. Guarded by subMux.
+	lostSubs []*Subscription
+
 	// pendingAcks contains the pending subscription acknowledgements
 	// for all active subscriptions.
 	pendingAcks []*ua.SubscriptionAcknowledgement
@@ -601,8 +606,8 @@ func (c *Client) monitor(ctx context.Context) {
 							activeSubs++
 						}
 
-						for _, subID := range subsToRecreate {
-							if err := c.recreateSubscription(ctx, subID); err != nil {
+						for _, sub := range c.forgetSubscriptionsToRecreate(ctx, subsToRecreate) {
+							if err := c.recreateSubscription(ctx, sub); err != nil {
 								dlog.Printf("recreate subscripitions failed: %v", err)
 								action = recreateSession
 								continue
